@@ -3,6 +3,20 @@
 import glob, json, os, re
 ROOT = os.path.dirname(os.path.dirname(os.path.abspath(__file__)))
 NOTES = {
+ "C01-m7": "missed at first (no nested run was cancelled in the one-iteration gap between two waits) -> `between_waits` family: every offset of 0-5 loop iterations on both sides",
+ "C03-m7": "rejected but not attributed to C03 at first (the run died on an internal error; it only hangs beside a never-ending forever job) -> `empty_stages` family",
+ "C03-m8": "rejected but not attributed to C03 at first (cancellations arrive late; it only hangs when a clean-up waits for a sibling's cancellation) -> `cwait` in the specification, the model families and the harness; `cancel_cliques` family",
+ "C04-m7": "rejected but not attributed to C04 at first (within one run the stale deadline only cuts the shutdown phase short) -> `preshut`: shutdown() issued before the run, in the specification, the model families and the scenarios; SymC04 clause 'timed out without a timeout'",
+ "C08-m8": "rejected but attributed to C04 only at first -> a success claimed where the specification says timeout is attributed to C08 too",
+ "C10-m7": "rejected but attributed to C08 only at first -> SymC10 clause: the timeout of a nested scheduler is measured from the beginning of its own run",
+ "C10-m8": "missed at first (no two nested schedulers with the same window began in the same instant) -> `sibling_windows` family; the failing clause says when the job kept waiting belongs to a windowed nested scheduler",
+ "C12-m7": "missed at first (nothing looked at a scheduler while it ran) -> `peek`: the read-only API used from job bodies and at every tick",
+ "C12-m8": "missed at first (`None` was the only spelling of 'no limit') -> `zerowin`",
+ "C13-m8": "missed at first (every cancelled handler re-raised) -> `sabsorb`: handlers that absorb their cancellation",
+ "C14-m8": "rejected but attributed to C13/C11 only at first -> a cancellation swallowed by the shutdown phase is attributed to C14 too (the cancelled nested run ends as if finished and is reported done)",
+ "C15-m7": "missed at first (jobs stayed in the scheduler that first scanned them) -> `scan` steps, `fam_rehome`: scanned jobs moved into a fresh scheduler",
+ "C15-m8": "detected; the looping scan cost 8 minutes of watchdog time at first -> short leash once two histories have hung",
+ "C16-m7": "missed at first (`sanitize()` was never verbose) -> verbose variants in every sanitize family",
  "C01-m1": "missed at first (predicate samples masked it; no scenario with a sibling finishing inside the nested run's wind-down) -> `snap` only in C14's family, `nested_gap` family",
  "C02-m1": "missed at first (first divergence attributed to C05/C04) -> trace-level symptoms (SymC02), `simultaneous_failures` family",
  "C03-m2": "missed at first (nothing queried the graph between building and running it) -> `prep` harness parameter",
